@@ -108,4 +108,63 @@ theorem toU_ofInt (bits : Nat) (x : Int) : toU bits x = (ofInt bits x : Nat) := 
 theorem byteOf_eq (x : Int) : byteOf x = UInt8.ofNat (ofInt 8 x) := by
   unfold byteOf; rw [toU_ofInt]; simp
 
+/-! ## shape-robust simplification
+
+  `go_simp [lemmas]` is `simp [lemmas]` in which every `if c then … else …` whose condition is linear arithmetic
+  (over `Nat` lengths or their `Int` casts, in any syntactic form: `len b < 5`, `5 ≤ len b`, `¬ …`, `len b - off ≥ 1` …)
+  is decided by `omega` from the hypotheses IN THE CONTEXT.  A proof therefore states its case split semantically
+  (`by_cases h : b.length < 5`) and never refers to the position or the polarity of the guard in the generated
+  definition: an inverted guard, a hoisted local or a commuted sum in the Go source leaves the proof unchanged.
+  `omega` is also the discharger of every other conditional rewrite rule (`wrap_i64_of_range`, `idx_ok` …); closed side
+  conditions such as `64 ≤ IT.bits .i64` are evaluated (`go_disch`).
+  (`len` is unfolded with `unfold` first, not by `simp`: a guard is `decide (len b < 5) = true`, and `simp [len]` leaves
+  the `Decidable` instance behind, after which `decide_eq_true_eq` no longer unifies.) -/
+
+/-- the discharger of `go_simp`: linear arithmetic from the context, or a closed width comparison `64 ≤ IT.bits .i64` -/
+macro "go_disch" : tactic => `(tactic| first | omega | (show _ ≤ IT.bits _; decide))
+
+syntax "go_simp" (" [" Lean.Parser.Tactic.simpLemma,* "]")? : tactic
+macro_rules
+  | `(tactic| go_simp) =>
+    `(tactic| (
+      (try unfold len)
+      simp (disch := go_disch) [if_pos, if_neg, Out.bind_ok, Out.bind_panic, Out.pure_eq, Out.bind_eq]))
+  | `(tactic| go_simp [$ls,*]) =>
+    `(tactic| (
+      (try unfold len)
+      simp (disch := go_disch) [if_pos, if_neg, Out.bind_ok, Out.bind_panic, Out.pure_eq, Out.bind_eq, $ls,*]))
+
+/-- both readings of `ofInt`/`wrap` after a value-preserving round trip through another integer type of at least the
+    same width (`uint64(int64(x))`, `int32(int64(x))` …): the low bits are unchanged -/
+theorem toU_wrap (n : Nat) (t : IT) (x : Int) (h : n ≤ t.bits) : toU n (wrap t x) = toU n x := by
+  have hd : ((2 ^ n : Nat) : Int) ∣ ((2 ^ t.bits : Nat) : Int) := by
+    refine Int.natCast_dvd_natCast.mpr ?_
+    exact Nat.pow_dvd_pow 2 h
+  unfold wrap toU
+  simp only
+  split
+  · rw [Int.sub_emod, Int.emod_emod_of_dvd _ hd, Int.emod_eq_zero_of_dvd hd]
+    simp [Int.emod_emod_of_dvd]
+  · exact Int.emod_emod_of_dvd _ hd
+
+theorem ofInt_wrap (n : Nat) (t : IT) (x : Int) (h : n ≤ t.bits) : ofInt n (wrap t x) = ofInt n x := by
+  have e := toU_wrap n t x h
+  rw [toU_ofInt, toU_ofInt] at e
+  omega
+
+/-- a conversion after a conversion to a type at least as wide is the conversion itself -/
+theorem wrap_congr_toU (t : IT) (x y : Int) (h : toU t.bits x = toU t.bits y) : wrap t x = wrap t y := by
+  unfold wrap; simp only [h]
+
+theorem wrap_wrap (t t' : IT) (x : Int) (h : t.bits ≤ t'.bits) : wrap t (wrap t' x) = wrap t x :=
+  wrap_congr_toU t _ _ (toU_wrap t.bits t' x h)
+
+theorem byteOf_wrap (t : IT) (x : Int) : byteOf (wrap t x) = byteOf x := by
+  unfold byteOf
+  rw [toU_wrap 8 t x (by cases t <;> decide)]
+
+/-- closes `f a₁ … aₙ = f a₁' … aₙ'` where corresponding arguments are syntactically equal or arithmetically equal
+    (`Nat`/`Int` expressions, `min` included): no dependence on how a sum is associated or ordered -/
+macro "congr_omega" : tactic => `(tactic| repeat' (first | with_reducible rfl | omega | with_reducible congr 1))
+
 end Verif.FuncsEq
